@@ -190,7 +190,10 @@ func main() {
 		{"digest-missing", "envelope", func(s *script) { s.mutate = edit(func(m map[string]any) { delete(ta(m), "digest") }) }, true},
 		{"digest-null", "envelope", func(s *script) { s.mutate = edit(func(m map[string]any) { ta(m)["digest"] = nil }) }, true},
 		{"digest-bare-hex", "envelope", func(s *script) {
-			s.mutate = edit(func(m map[string]any) { ta(m)["digest"] = strings.TrimPrefix(fmt.Sprint(ta(m)["digest"]), "sha256:") })
+			s.mutate = edit(func(m map[string]any) {
+				d := fmt.Sprint(ta(m)["digest"]) // whatever the algorithm (blob digests follow the key: sha256 / sha384 / sha512)
+				ta(m)["digest"] = d[strings.Index(d, ":")+1:]
+			})
 		}, true},
 		{"digest-other-algorithm", "envelope", func(s *script) {
 			s.mutate = edit(func(m map[string]any) { ta(m)["digest"] = "sha512:" + strings.Repeat("ab", 64) })
